@@ -79,7 +79,7 @@ def _model_outputs(m):
 
 def run_path(env, contract, script, explorer, prune=True):
     m = Machine(env, script, explorer, prune=prune)
-    env.current_target = contract.fn
+    env.current_target = contract.kernel or contract.fn
     args = {}
     for pname, ty in contract.args.items():
         v = m.fresh(pname, ty)
